@@ -293,8 +293,44 @@ Proof.
   split; [exact Ha|]. destruct (a_term a); [discriminate|reflexivity].
 Qed.
 
+(** the positional counter stays within the declared indices when every index is in
+    [1 .. positional_count] and the last positional absorbs (multiple, no terminator) *)
+Definition ranged : bool :=
+  forallb (fun a => match a_index a with Some j => (1 <=? j) && (j <=? positional_count c) | None => true end) (c_args c)
+  && match get_pos c (positional_count c) with Some a => a_is_multiple a && negb (is_some (a_term a)) | None => false end.
+Definition in_range (q : N) : Prop := 1 <= q <= positional_count c.
+
+Lemma get_pos_index j a : get_pos c j = Some a -> a_index a = Some j.
+Proof.
+  unfold get_pos. destruct (List.find _ (keymap c)) as [[k a']|] eqn:E; cbn [opt_map snd]; [|discriminate].
+  intros H. injection H as <-. apply List.find_some in E. destruct E as [Hin Hk]. cbn [fst] in Hk.
+  destruct (keymap_in _ _ _ Hin) as [_ Hkeys]. unfold arg_keys in Hkeys.
+  destruct k as [x|x|n]; try discriminate. apply N.eqb_eq in Hk. subst n.
+  destruct (a_index a') as [n|].
+  - destruct Hkeys as [H|[]]. injection H as ->. reflexivity.
+  - exfalso. repeat (apply in_app_or in Hkeys; destruct Hkeys as [Hkeys|Hkeys]);
+      try (destruct (a_short a'); cbn in Hkeys; intuition discriminate);
+      try (destruct (a_long a'); cbn in Hkeys; intuition discriminate);
+      apply in_map_iff in Hkeys; destruct Hkeys as [? [? ?]]; discriminate.
+Qed.
+
+Lemma ranged_pos pc' a : ranged = true -> get_pos c pc' = Some a ->
+  in_range pc' /\ ((a_is_multiple a = false \/ a_term a <> None) -> in_range (pc' + 1)).
+Proof.
+  unfold ranged, in_range. intros H Hg. apply andb_prop in H. destruct H as [H1 H2].
+  destruct (get_pos_in _ _ _ Hg) as [Hin _]. rewrite forallb_forall in H1. specialize (H1 a Hin).
+  rewrite (get_pos_index _ _ Hg) in H1. apply andb_prop in H1. destruct H1 as [Ha Hb].
+  apply N.leb_le in Ha, Hb. split; [lia|]. intros Hs.
+  assert (pc' <> positional_count c); [|lia]. intros ->. rewrite Hg in H2.
+  apply andb_prop in H2. destruct H2 as [Hm Ht]. destruct Hs as [Hs|Hs]; [congruence|].
+  destruct (a_term a); [discriminate|contradiction].
+Qed.
+
+Definition posfacts (ls ls' : lstate) : Prop :=
+  (sticky = true -> l_pos ls' = l_pos ls) /\ (ranged = true -> in_range (l_pos ls) -> in_range (l_pos ls')).
+
 Definition good (ls : lstate) (st : ps) (ls' : lstate) (st' : ps) : Prop :=
-  TV st' /\ LTV ls' /\ (l_trailing ls = true -> l_trailing ls' = true) /\ (sticky = true -> l_pos ls' = l_pos ls)
+  TV st' /\ LTV ls' /\ (l_trailing ls = true -> l_trailing ls' = true) /\ posfacts ls ls'
   /\ mt_sub (mt st') = mt_sub (mt st).
 
 Inductive ssim (tok : bytes) (r1 r2 : list bytes) (ls : lstate) (st : ps) : res loop_res -> res loop_res -> Prop :=
@@ -359,27 +395,30 @@ Proof.
         unfold Dispatch.S_ in Hk. congruence.
       - injection Ef as <-. split; [exact HTV|exact Hsub0]. }
     destruct HTV1 as [HTV1 Hsub1].
-    assert (Hpos : forall pst' q, (sticky = true -> q = pc) ->
+    assert (Hpos : forall pst' q, (sticky = true -> q = pc) -> (ranged = true -> in_range q) ->
               (forall i, pst' = PSOpt i -> False) ->
               forall st', TV st' -> mt_sub (mt st') = mt_sub (mt st0) -> good ls0 st0 (mkL pst' q true (tr || a_tva a)) st').
-    { intros pst' q Hq Hpst st' HTV' Hsub'. split; [exact HTV'|]. split; [intros i Hi; cbn in Hi; exfalso; eapply Hpst; exact Hi|].
-      cbn [l_trailing l_pos]. split; [intros Htr; rewrite (Hls0 Htr); reflexivity|].
-      split; [|exact Hsub']. intros Hs. rewrite Hls0'. apply Hq. exact Hs. }
+    { intros pst' q Hq Hrg Hpst st' HTV' Hsub'. split; [exact HTV'|]. split; [intros i Hi; cbn in Hi; exfalso; eapply Hpst; exact Hi|].
+      split; [cbn [l_trailing]; intros Htr; rewrite (Hls0 Htr); reflexivity|].
+      split; [|exact Hsub']. split; cbn [l_pos]; [intros Hs; rewrite Hls0'; apply Hq; exact Hs|intros Hr _; apply Hrg; exact Hr]. }
     assert (Hpc : sticky = true -> pc' = pc).
     { intros Hs. rewrite (pos_counter_sticky tr pc vaf r2 Hs) in Epc. injection Epc as <-. reflexivity. }
     destruct (check_terminator a tok) eqn:Ect.
-    { apply SS_cont. apply Hpos; [|discriminate|exact HTV1|exact Hsub1].
-      intros Hs. exfalso. destruct (sticky_pos _ _ Hs Eg) as [_ Hterm].
-      unfold check_terminator in Ect. rewrite Hterm in Ect. discriminate. }
+    { apply SS_cont. apply Hpos; [| |discriminate|exact HTV1|exact Hsub1].
+      - intros Hs. exfalso. destruct (sticky_pos _ _ Hs Eg) as [_ Hterm].
+        unfold check_terminator in Ect. rewrite Hterm in Ect. discriminate.
+      - intros Hr. apply (proj2 (ranged_pos _ _ Hr Eg)). right. unfold check_terminator in Ect.
+        destruct (a_term a); discriminate. }
     destruct (pending_values_push (mt st1) (a_id a) (Some IIndex) (tr || a_tva a) (Some tok)) as [m1|] eqn:Ep;
       cbn [expect rbind]; [|constructor].
     pose proof (push_TV _ _ _ _ _ _ Ep HTV1 Hta) as HTV2.
     assert (Hsub2 : mt_sub (mt (st1 <| mt := m1 |>)) = mt_sub (mt st0)).
     { change (mt (st1 <| mt := m1 |>)) with m1. rewrite (push_sub _ _ _ _ _ _ Ep). exact Hsub1. }
     destruct (negb (a_is_multiple a)) eqn:Em.
-    + apply SS_cont. apply Hpos; [|discriminate|exact HTV2|exact Hsub2].
-      intros Hs. exfalso. destruct (sticky_pos _ _ Hs Eg) as [Hm _]. rewrite Hm in Em. discriminate.
-    + apply SS_cont. apply Hpos; [exact Hpc|discriminate|exact HTV2|exact Hsub2].
+    + apply SS_cont. apply Hpos; [| |discriminate|exact HTV2|exact Hsub2].
+      * intros Hs. exfalso. destruct (sticky_pos _ _ Hs Eg) as [Hm _]. rewrite Hm in Em. discriminate.
+      * intros Hr. apply (proj2 (ranged_pos _ _ Hr Eg)). left. apply negb_true_iff. exact Em.
+    + apply SS_cont. apply Hpos; [exact Hpc|intros Hr; exact (proj1 (ranged_pos _ _ Hr Eg))|discriminate|exact HTV2|exact Hsub2].
   - destruct (is_set s_allow_external c).
     + destruct (utf8_valid tok); [constructor|].
       destruct (rpi_cases st) as [[s ->]|[x ->]]; cbn [rbind]; constructor.
@@ -399,7 +438,7 @@ Lemma good_flag pst pc vaf st pst' vaf1 st1 :
   good (mkL pst pc vaf false) st (mkL pst' pc vaf1 false) st1.
 Proof.
   intros H1 H2 H3. split; [exact H1|]. split; [intros i Hi; apply H2; exact Hi|].
-  split; [discriminate|]. split; [reflexivity|exact H3].
+  split; [discriminate|]. split; [split; [reflexivity|intros _ H; exact H]|exact H3].
 Qed.
 
 Inductive ph1sim (tok : bytes) (r1 r2 : list bytes) (ls : lstate) (st : ps) :
@@ -429,7 +468,7 @@ Proof.
       destruct (match sa with Some a => a_hyphen a | None => false end).
       - apply (P1_none tok r1 r2 (mkL pst pc vaf false) st vaf st HTV eq_refl).
       - apply P1_early. apply SS_cont. split; [apply TV_start_trailing; exact HTV|].
-        split; [exact HLTV|]. split; [reflexivity|]. split; [reflexivity|].
+        split; [exact HLTV|]. split; [reflexivity|]. split; [split; [reflexivity|intros _ H; exact H]|].
         change (mt (st <| mt := start_trailing (mt st) |>)) with (start_trailing (mt st)).
         unfold start_trailing. destruct (mt_pending (mt st)); reflexivity. }
     destruct (to_long tok) as [[[f ok] v]|].
@@ -480,12 +519,16 @@ Proof.
 Qed.
 
 Lemma good_refl ls st : TV st -> LTV ls -> good ls st ls st.
-Proof. intros H1 H2. split; [exact H1|]. split; [exact H2|]. split; [intros H; exact H|]. split; reflexivity. Qed.
+Proof.
+  intros H1 H2. split; [exact H1|]. split; [exact H2|]. split; [intros H; exact H|].
+  split; [split; [reflexivity|intros _ H; exact H]|reflexivity].
+Qed.
 
 Lemma good_trans ls st ls1 st1 ls2 st2 : good ls st ls1 st1 -> good ls1 st1 ls2 st2 -> good ls st ls2 st2.
 Proof.
-  intros (_ & _ & A3 & A4 & A5) (B1 & B2 & B3 & B4 & B5). split; [exact B1|]. split; [exact B2|].
-  split; [intros H; apply B3, A3, H|]. split; [|congruence]. intros Hs. rewrite (B4 Hs). apply A4. exact Hs.
+  intros (_ & _ & A3 & [A4 A4'] & A5) (B1 & B2 & B3 & [B4 B4'] & B5). split; [exact B1|]. split; [exact B2|].
+  split; [intros H; apply B3, A3, H|]. split; [|congruence].
+  split; [intros Hs; rewrite (B4 Hs); apply A4; exact Hs|intros Hr H; apply (B4' Hr), (A4' Hr), H].
 Qed.
 
 (** * The prefix of the line: the loop over [pre ++ s] reaches [s] in a state that does not depend on
@@ -561,7 +604,7 @@ Qed.
 
 (** the whole line [pre ++ -- :: t], for two tails *)
 Inductive esim (t1 t2 : list bytes) (ls : lstate) (st : ps) : res loop_res -> res loop_res -> Prop :=
-| ES_trailing : forall x ls' st', l_trailing ls' = true -> TV st' -> (sticky = true -> l_pos ls' = l_pos ls) ->
+| ES_trailing : forall x ls' st', l_trailing ls' = true -> TV st' -> posfacts ls ls' ->
     mt_sub (mt st') = mt_sub (mt st) ->
     esim t1 t2 ls st (parse_loop c (x ++ t1) ls' st') (parse_loop c (x ++ t2) ls' st')
 | ES_err : forall e st', esim t1 t2 ls st (RErr e st') (RErr e st')
@@ -597,7 +640,7 @@ Qed.
 
 (** the same for one line *)
 Inductive eone (t : list bytes) (ls : lstate) (st : ps) : res loop_res -> Prop :=
-| EO_trailing : forall x ls' st', l_trailing ls' = true -> TV st' -> (sticky = true -> l_pos ls' = l_pos ls) ->
+| EO_trailing : forall x ls' st', l_trailing ls' = true -> TV st' -> posfacts ls ls' ->
     mt_sub (mt st') = mt_sub (mt st) -> eone t ls st (parse_loop c (x ++ t) ls' st')
 | EO_err : forall e st', eone t ls st (RErr e st')
 | EO_panic : forall x, eone t ls st (RPanic x)
